@@ -308,7 +308,7 @@ public:
 	template<class T>
 	Socket& operator<<(const Array<T>& x)
 	{
-		if (endian() == ASL_OTHER_ENDIAN)
+		if (endian() == ASL_OTHER_ENDIAN || !IsArithmetic<T>::value)
 		{
 			foreach(const T& y, x)
 				*this << y;
